@@ -45,6 +45,8 @@ func main() {
 		onlyRule = flag.String("rule", "", "only report obligations whose key starts with this prefix (replay)")
 		noEv     = flag.Bool("no-evidence", false, "do not write evidence (used by the self-test corpus)")
 		list     = flag.Bool("list", false, "list properties")
+		dump     = flag.String("dump", "", "debug: print the SSA of Alias:func (e.g. 'S:(*Store).Put')")
+		selftest = flag.Bool("selftest", false, "developer command: run the sensitivity corpus (optionally only for -property or one variant id) and fail on disagreement")
 	)
 	flag.Parse()
 	// go/packages resolves the go command through this process's PATH.
@@ -58,6 +60,31 @@ func main() {
 		}
 		sort.Strings(ids)
 		fmt.Println(strings.Join(ids, " "))
+		return
+	}
+	if *selftest {
+		if *verif == "" {
+			exe, _ := os.Executable()
+			*verif = filepath.Dir(filepath.Dir(exe))
+		}
+		os.Exit(selfTest(*repo, *verif, *property))
+	}
+	if *dump != "" {
+		e, err := Load(*repo, "", nil)
+		if err != nil {
+			fmt.Fprintln(os.Stderr, err)
+			os.Exit(2)
+		}
+		parts := strings.SplitN(*dump, ":", 2)
+		f := e.Func(parts[0], parts[1])
+		if f == nil {
+			fmt.Fprintln(os.Stderr, "not found")
+			os.Exit(2)
+		}
+		f.WriteTo(os.Stdout)
+		for _, a := range f.AnonFuncs {
+			a.WriteTo(os.Stdout)
+		}
 		return
 	}
 	if *tier == "" {
@@ -200,6 +227,11 @@ func runProperty(id string, spec *propSpec, tier, repo, verif, overlayPath, only
 			if !o.OK {
 				bad++
 				fmt.Printf("BAD %s | %s | %s\n", o.Key, o.Pos, o.Detail)
+				if o.Path != "" {
+					fmt.Printf("    path: %s\n", o.Path)
+				}
+			} else if os.Getenv("STHLINT_VERBOSE") != "" {
+				fmt.Printf("ok  %s | %s | %s\n", o.Key, o.Pos, o.Detail)
 			}
 		}
 		fmt.Printf("RESULT property=%s obligations=%d bad=%d\n", id, len(r.Obls), bad)
